@@ -96,6 +96,12 @@ CompleteDiff ==
   ELSE IF Case.run.all_completed # AllOf([m \in Mem |-> CompletedExp(Case.members[m])]) THEN "run_manifest_all_completed"
   ELSE IF Case.run.error_count # SumOf([m \in Mem |-> Len(Case.members[m].mem.errLines)]) THEN "run_manifest_error_count"
   ELSE IF Case.is_valid_api # AllOf([m \in Mem |-> Case.members[m].mem.valid]) THEN "results_manager_is_valid"
+  \* the other answers of the results manager: one result per member in group order, errors summed, identities resolve to their member
+  ELSE IF Case.api_error # "" THEN "results_manager_raised"
+  ELSE IF Case.api.n_results # Case.nmem THEN "results_manager_number_of_results"
+  ELSE IF Case.api.has_errors # (SumOf([m \in Mem |-> Len(Case.members[m].mem.errLines)]) > 0) THEN "results_manager_has_errors"
+  ELSE IF \E i \in 1..Len(Case.api.specific) : Case.api.specific[i].got # Case.api.specific[i].m THEN "results_manager_specific_result"
+  ELSE IF Case.api.last # Case.nmem THEN "results_manager_last_result"
   ELSE "ok"
 
 \* C18: a run that raised.  Every member that had started has readable meta/vars/errors, the
